@@ -201,6 +201,110 @@ for n, digits in (("newtonian_constant_of_gravitation", "6.67430e-11"), ("rydber
                   ("atomic_mass_constant", "1.66053906892e-27"), ("electron_mass", "9.1093837139e-31"), ("proton_mass", "1.67262192595e-27"), ("neutron_mass", "1.67492750056e-27")):
     E.append({"name": n, "kind": "measured", "digits": digits, "source": CODATA})
 
+
+for n, digits in (("x_unit_Cu", "1.00207697e-13"), ("x_unit_Mo", "1.00209952e-13"), ("angstrom_star", "1.00001495e-10")):
+    E.append({"name": n, "kind": "measured", "digits": digits, "source": CODATA, "dims": L1})
+
+# ---- second batch: further exact units ------------------------------------------------
+MASSLEN = {"[mass]": 1, "[length]": -1}
+SPECW = {"[mass]": 1, "[length]": -3}          # densities of the conventional manometer liquids
+VISC = {"[mass]": 1, "[length]": -1, "[time]": -1}
+u("UK_hundredweight", 112 * lb, M1, None, UK); u("UK_ton", 2240 * lb, M1, None, UK); u("US_hundredweight", 100 * lb, M1, None, "NIST Handbook 44"); u("US_ton", 2000 * lb, M1, None, "NIST Handbook 44")
+u("UK_force_ton", 2240 * lb * g0, FORCE, None, UK); u("US_force_ton", 2000 * lb * g0, FORCE, None, Y)
+u("slinch", lb * g0 / inch, M1, None, "1 slinch = 1 lbf s^2/in = 12 slug")
+u("month", jyear / 12, T1, None, "Julian year / 12"); u("eon", 10 ** 9 * jyear, T1, None, "1e9 Julian years")
+u("kilometer_per_second", 1000, SPEED, None, S); u("meter_per_second", 1, SPEED, None, S); u("counts_per_second", 1, FREQ, None, "")
+u("gamma_mass", D("1e-9"), M1, None, "1 γ = 1 µg"); u("lambda", D("1e-9"), V3, None, "1 λ = 1 µL")
+u("imperial_cup", igal / 16, V3, None, "half an imperial pint"); u("square_survey_mile", (5280 * sft) ** 2, A2, None, "US survey mile squared"); u("square_league", (3 * 5280 * sft) ** 2, A2, None, "US survey league = 3 survey miles")
+u("cicero", F(12, 2660), L1, None, "12 Didot points, didot = 1/2660 m"); u("tex_pica", 12 * inch / D("72.27"), L1, None, "TeX: 72.27 pt = 1 in"); u("tex_didot", F(1238, 1157) * inch / D("72.27"), L1, None, "TeX: 1157 dd = 1238 pt"); u("tex_cicero", 12 * F(1238, 1157) * inch / D("72.27"), L1, None, "TeX: 1 cc = 12 dd")
+u("dtex", D("1e-7"), MASSLEN, None, "1 dtex = 0.1 tex")
+u("US_therm", D("1.054804e8"), ENERGY, None, "US therm (59 °F) = 1.054804e8 J, 15 CFR / NIST SP 811")
+u("mercury", rho_hg, SPECW, None, "conventional mercury 13595.1 kg/m^3 (ISO 31-3)"); u("water", rho_w, SPECW, None, "conventional water 1000 kg/m^3")
+u("mercury_60F", D("13556.8"), SPECW, None, "NIST SP 811 inHg (60 °F)"); u("water_39F", D("999.972"), SPECW, None, "NIST SP 811 inH2O (39.2 °F)"); u("water_60F", D("999.001"), SPECW, None, "NIST SP 811 inH2O (60 °F)")
+u("inch_Hg_60F", D("13556.8") * g0 * inch, PRESS, None, "NIST SP 811: 3376.85 Pa"); u("inch_H2O_39F", D("999.972") * g0 * inch, PRESS, None, "NIST SP 811: 249.082 Pa"); u("inch_H2O_60F", D("999.001") * g0 * inch, PRESS, None, "NIST SP 811: 248.84 Pa")
+u("reyn", lb * g0 / inch ** 2, VISC, None, "1 reyn = 1 psi s"); u("rhe", 10, {"[mass]": -1, "[length]": 1, "[time]": 1}, None, "1 rhe = 1/P")
+u("darcy", D("1e-3") * D("1e-4") / atm, A2, None, "1 D = 1 cP cm^2/(s atm)")
+u("particle", 1 / NA, {"[substance]": 1}, None, "1/N_A"); u("enzyme_unit", D("1e-6") / 60, {"[substance]": 1, "[time]": -1}, "U", "1 U = 1 µmol/min")
+u("clausius", cal_th, {"[mass]": 1, "[length]": 2, "[time]": -2, "[temperature]": -1}, "Cl", "1 Cl = 1 cal_th/K"); u("entropy_unit", cal_th, {"[mass]": 1, "[length]": 2, "[time]": -2, "[temperature]": -1, "[substance]": -1}, "eu", "1 e.u. = 1 cal_th/(K mol)")
+u("peak_sun_hour", D("3.6e6"), {"[mass]": 1, "[time]": -2}, "PSH", "1 kWh/m^2"); u("langley", cal_th * 10 ** 4, {"[mass]": 1, "[time]": -2}, "Ly", "1 Ly = 1 cal_th/cm^2")
+u("faraday", e * NA, CHARGE, None, "F = e N_A (exact since 2019)")
+u("mean_international_volt", D("1.00034"), VOLT, "V_it", "NIST SP 811"); u("US_international_volt", D("1.00033"), VOLT, "V_US", "NIST SP 811")
+u("mean_international_ohm", D("1.00049"), OHM, None, "NIST SP 811"); u("US_international_ohm", D("1.000495"), OHM, None, "NIST SP 811")
+u("mean_international_ampere", D("1.00034") / D("1.00049"), {"[current]": 1}, "A_it", "V_it / Ω_it"); u("US_international_ampere", D("1.00033") / D("1.000495"), {"[current]": 1}, "A_US", "V_US / Ω_US")
+u("ampere_turn", 1, {"[current]": 1}, "At", ""); u("biot_turn", 10, {"[current]": 1}, None, "CGS-EMU")
+u("townsend", D("1e-21"), {"[mass]": 1, "[length]": 4, "[time]": -3, "[current]": -1}, "Td", "1 Td = 1e-21 V m^2")
+KJ90 = D("483597.9e9"); RK90 = D("25812.807"); KJ = 2 * e / h; RK = h / e ** 2
+u("conventional_volt_90", KJ90 / KJ, VOLT, "V_90", "CIPM 1988: K_J-90 = 483597.9 GHz/V; K_J = 2e/h"); u("conventional_ohm_90", RK / RK90, OHM, None, "CIPM 1988: R_K-90 = 25812.807 Ω; R_K = h/e^2")
+u("conventional_ampere_90", KJ90 * RK90 / (KJ * RK), {"[current]": 1}, "A_90", "V_90/Ω_90"); u("conventional_coulomb_90", KJ90 * RK90 / (KJ * RK), CHARGE, "C_90", "A_90 s")
+u("conventional_watt_90", KJ90 ** 2 * RK90 / (KJ ** 2 * RK), POWER, "W_90", "V_90^2/Ω_90"); u("conventional_farad_90", RK90 / RK, {"[mass]": -1, "[length]": -2, "[time]": 4, "[current]": 2}, "F_90", "s/Ω_90")
+u("conventional_henry_90", RK / RK90, {"[mass]": 1, "[length]": 2, "[time]": -2, "[current]": -2}, "H_90", "Ω_90 s")
+u("standard_liter_per_minute", atm * L / 60, POWER, "slpm", "atm L/min")
+
+
+def approx(name, value, rel_tol, dims, src, symbol=None):
+    rec = {"name": name, "kind": "approx", "value": value, "rel_tol": rel_tol, "dims": dims, "source": src}
+    if symbol is not None:
+        rec["symbol"] = symbol if isinstance(symbol, list) else [symbol]
+    E.append(rec)
+
+
+# values involving π or published only as decimals: compared to the stated number of digits
+C22 = "CODATA 2022"
+approx("stefan_boltzmann_constant", "5.670374419e-8", "1e-9", {"[mass]": 1, "[time]": -3, "[temperature]": -4}, C22 + " (exact-derived)")
+approx("first_radiation_constant", "3.741771852e-16", "1e-9", {"[mass]": 1, "[length]": 4, "[time]": -3}, C22 + " (exact-derived)")
+approx("second_radiation_constant", "1.438776877e-2", "1e-9", {"[length]": 1, "[temperature]": 1}, C22 + " (exact-derived)")
+approx("wien_wavelength_displacement_law_constant", "2.897771955e-3", "1e-9", {"[length]": 1, "[temperature]": 1}, C22 + " (exact-derived)")
+approx("wien_frequency_displacement_law_constant", "5.878925757e10", "1e-9", {"[time]": -1, "[temperature]": -1}, C22 + " (exact-derived)")
+approx("dirac_constant", "1.054571817e-34", "1e-9", {"[mass]": 1, "[length]": 2, "[time]": -1}, C22 + " hbar (exact-derived)")
+approx("fine_structure_constant", "7.2973525643e-3", "1e-9", NONE, C22)
+approx("vacuum_permeability", "1.25663706127e-6", "1e-9", {"[mass]": 1, "[length]": 1, "[time]": -2, "[current]": -2}, C22)
+approx("vacuum_permittivity", "8.8541878188e-12", "1e-9", {"[mass]": -1, "[length]": -3, "[time]": 4, "[current]": 2}, C22)
+approx("impedance_of_free_space", "376.730313412", "1e-9", OHM, C22)
+approx("coulomb_constant", "8.9875517862e9", "1e-9", {"[mass]": 1, "[length]": 3, "[time]": -4, "[current]": -2}, C22 + " 1/(4 π ε_0)")
+approx("classical_electron_radius", "2.8179403205e-15", "2e-9", L1, C22)
+approx("thomson_cross_section", "6.6524587051e-29", "4e-9", A2, C22)
+approx("bohr", "5.29177210544e-11", "1e-9", L1, C22)
+approx("hartree", "4.3597447222060e-18", "1e-9", ENERGY, C22)
+approx("rydberg", "2.1798723611030e-18", "1e-9", ENERGY, C22 + " (h c R_inf)")
+approx("atomic_unit_of_time", "2.4188843265864e-17", "1e-9", T1, C22)
+approx("atomic_unit_of_force", "8.2387235038e-8", "2e-9", FORCE, C22)
+approx("atomic_unit_of_temperature", "3.1577502480398e5", "1e-9", TEMP, C22 + " E_h/k")
+approx("atomic_unit_of_current", "6.6236182375082e-3", "1e-9", {"[current]": 1}, C22)
+approx("atomic_unit_of_electric_field", "5.14220675112e11", "2e-9", {"[mass]": 1, "[length]": 1, "[time]": -3, "[current]": -1}, C22)
+approx("atomic_unit_of_intensity", "3.5094452e20", "1e-6", {"[mass]": 1, "[time]": -3}, "0.5 ε_0 c E_au^2 = 3.50944... e16 W/cm^2")
+approx("bohr_magneton", "9.2740100657e-24", "1e-9", {"[current]": 1, "[length]": 2}, C22)
+approx("nuclear_magneton", "5.0507837393e-27", "1e-9", {"[current]": 1, "[length]": 2}, C22)
+approx("planck_length", "1.616255e-35", "2e-5", L1, C22)
+approx("planck_mass", "2.176434e-8", "2e-5", M1, C22)
+approx("planck_time", "5.391247e-44", "2e-5", T1, C22)
+approx("planck_temperature", "1.416784e32", "2e-5", TEMP, C22)
+approx("planck_current", "3.4789e25", "1e-4", {"[current]": 1}, "sqrt(4 π ε_0 c^6/G)")
+approx("unified_atomic_mass_unit", "1.66053906892e-27", "1e-10", M1, C22)
+approx("dalton", "1.66053906892e-27", "1e-10", M1, C22)
+approx("parsec", "3.0856775814913673e16", "1e-15", L1, "IAU 2015 Res. B2: 648000/π au")
+approx("milliarcsecond", "4.84813681109536e-9", "1e-14", NONE, "π/648000000 rad", "mas")
+approx("square_degree", "3.0461741978670857e-4", "1e-15", NONE, "(π/180)^2 sr")
+approx("revolutions_per_minute", "0.10471975511965977", "1e-15", FREQ, "2π/60 rad/s", "rpm")
+approx("revolutions_per_second", "6.283185307179586", "1e-15", FREQ, "2π rad/s", "rps")
+approx("circular_mil", "5.067074790974977e-10", "1e-14", A2, "π/4 (0.001 in)^2", "cmil")
+approx("lambert", "3183.098861837907", "1e-14", {"[luminosity]": 1, "[length]": -2}, "1/π cd/cm^2")
+approx("gilbert", "0.7957747154594768", "1e-14", {"[current]": 1}, "10/(4π) A", "Gb")
+approx("unit_pole", "1.25663706127e-7", "1e-9", {"[mass]": 1, "[length]": 2, "[time]": -2, "[current]": -1}, "4π x 1e-8 Wb (µ_0 x 10 A x 1 cm)")
+approx("debye", "3.33564095e-30", "1e-8", {"[current]": 1, "[time]": 1, "[length]": 1}, "1 D = 1e-21/c C m", "D")
+approx("buckingham", "3.33564095e-40", "1e-8", {"[current]": 1, "[time]": 1, "[length]": 2}, "1 B = 1 D Å")
+approx("sidereal_year", "31558149.7635", "1e-9", T1, "365.256363004 d (J2000)")
+approx("tropical_year", "31556925.25", "1e-8", T1, "365.24219 d (J2000)")
+approx("sidereal_day", "86164.0905", "1e-8", T1, "23 h 56 min 4.0905 s")
+approx("sidereal_month", "2360591.5", "1e-7", T1, "27.321661 d")
+approx("tropical_month", "2360584.7", "1e-7", T1, "27.321582 d")
+approx("synodic_month", "2551442.9", "1e-7", T1, "29.530589 d")
+
+# logarithmic units: (reference value in SI, logbase, logfactor)
+for n, ref, base, factor, sym in (("decibelwatt", "1", "10", "10", "dBW"), ("decibelmilliwatt", "1/1000", "10", "10", "dBm"), ("decibelmicrowatt", "1/1000000", "10", "10", "dBu"),
+                                  ("decibel", "1", "10", "10", "dB"), ("decade", "1", "10", "1", None), ("octave", "1", "2", "1", "oct"), ("neper", "1", "e", "1/2", "Np")):
+    E.append({"name": n, "kind": "log_unit", "si": ref, "logbase": base, "logfactor": factor, "symbol": [sym] if sym else None,
+              "dims": POWER if n.startswith("decibel") and n != "decibel" else NONE, "source": "ISO 80000-3 / IEC 60027-3: L = logfactor x log_base(P/P_ref)"})
+
 out = os.path.join(os.path.dirname(os.path.abspath(__file__)), "standard_values.json")
 with open(out, "w", encoding="utf-8") as fh:
     json.dump({"_comment": "generated by gen_standard_values.py from primitive standard definitions; SI-coherent rationals", "entries": E}, fh, indent=0, ensure_ascii=False)
